@@ -170,7 +170,9 @@ class C16Exec(execs.PyExec):
                 pre = p["rows"][0][0] if p["rows"] else [0.5, 0.5, 0.5, 0.5, "a", True, [1.0, 0.0], "a"]
                 try:
                     if p["prefill"] == 2 and p["np"]:
-                        obj.fill.numpy(execs.np_columns([pre]))
+                        import numpy as _np
+
+                        obj.fill.numpy(execs.np_columns([pre]), _np.ones(1))
                     else:
                         obj.fill(pre, 1.0)
                 except Exception:  # noqa: BLE001 - a sub-aggregator that cannot be filled on its own is simply not pre-filled
@@ -204,7 +206,11 @@ class C16Exec(execs.PyExec):
                 q = {"before": shape_of(t)}
             try:
                 if use_np:
-                    t.fill.numpy(execs.np_columns([r[0] for r in rows]))
+                    # explicit weight vector: scalar/unit weights on collections are the region of known finding
+                    # C03-scalar-weight-count-first
+                    import numpy as _np
+
+                    t.fill.numpy(execs.np_columns([r[0] for r in rows]), _np.ones(len(rows)))
                 else:
                     for d, w in rows:
                         t.fill(d, w)
